@@ -500,7 +500,7 @@ struct verif_ins_t {
 	_Bool	p_is_left;	/* where p hangs from the root (depth 2) */
 	_Bool	go_left;	/* side of p the new node goes to */
 	_Bool	p_has_other;	/* p's other child exists (a leaf: p was balanced with an empty side) */
-	int8_t	c1, c2;		/* magnitudes of the comparator verdicts along the search */
+	int	c1, c2;		/* magnitudes of the comparator verdicts along the search: any positive int */
 	uint8_t	dup;		/* 0: the key is absent; k: the k-th node on the search path compares equal */
 };
 static struct verif_ins_t	v_ins;
